@@ -26,6 +26,7 @@ from vp.common import (
     match_known,
     run_sharded,
     safe_warmup,
+    safe_evaluate,
     write_evidence,
 )
 
@@ -37,7 +38,7 @@ def _replay_by_name(args):
 
 def _replay_case(mod, case):
     try:
-        mod.evaluate(case)
+        safe_evaluate(mod, case)
     except Violation as v:
         return dict(component=v.component, message=v.message, tags=jsonable(v.tags), case=jsonable(case), detail=jsonable(v.detail))
     return None
